@@ -6,6 +6,8 @@
 //	exit <id> [err]                          (err: Exit(WithError(..)))
 //	entry <id> <res> - [type=<t>]            (no WithBatchCount option: default batch 1)
 //	manyres <n>                              (enter+exit n fresh rule-less resources "#<k>")
+//	loadres <res> <thr>* / clearres <res>    (isolation.LoadRulesOfResource / ClearRulesOfResource, also on rule-less resources)
+//	clock <ms>                               (virtual clock := case start - 10000 + ms, 0 <= ms <= 20000; may step backwards)
 //	trace <id>                               (api.TraceError on the entry, live or exited)
 //	dexit <id>                               (Exit called by TWO goroutines that meet inside the completion path, see rdv)
 //	conc <res>                               => gauge
@@ -173,8 +175,18 @@ func (it *Interp) Reset() {
 	_ = isolation.ClearRules()
 	_ = flow.ClearRules()
 	stat.ResetResourceNodeMap()
-	it.now += 20_000 // more than the whole default array interval (10 s)
+	it.now += 50_000 // cases are more than the whole default array interval (10 s) apart; `clock` moves within it.now-10000 .. it.now+10000
 	it.clk.SetMs(it.now)
+}
+
+// isolation_rules: the effective rules as the module reports them (only used by soak to print its bound)
+func isolation_rules() []*isolation.Rule {
+	rs := isolation.GetRules()
+	out := make([]*isolation.Rule, len(rs))
+	for i := range rs {
+		out[i] = &rs[i]
+	}
+	return out
 }
 
 func u32(s string) uint32 {
@@ -232,6 +244,27 @@ func (it *Interp) Step(t []string, op string) string {
 			return "err"
 		}
 		it.rules = rules
+		return ""
+	case "loadres", "clearres":
+		res := t[1]
+		var err error
+		if t[0] == "clearres" {
+			err = isolation.ClearRulesOfResource(res)
+		} else {
+			rules := make([]*isolation.Rule, 0, len(t)-2)
+			for i, a := range t[2:] {
+				rules = append(rules, &isolation.Rule{ID: strconv.Itoa(i), Resource: res, MetricType: isolation.Concurrency, Threshold: u32(a)})
+			}
+			_, err = isolation.LoadRulesOfResource(res, rules)
+		}
+		if err != nil {
+			return "err"
+		}
+		it.rules = isolation_rules()
+		return ""
+	case "clock":
+		// offset from the case start (the case starts at offset 10000); may step backwards
+		it.clk.SetMs(it.now - 10_000 + vh.U(t[1]))
 		return ""
 	case "entry":
 		id := vh.U(t[1])
